@@ -32,7 +32,7 @@ class Doc(object):
 
 
 LONG = 'the quick brown fox jumps over the lazy dog 0123456789'
-STR_BODIES = [LONG, LONG[:30], 'abc', '', 'a b', 'x,y', 'q\\"q', 'l\\nm', 'p\\\\p', 'd\\$d', u'caf\\u00e9', u'été', 'tab\\there',
+STR_BODIES = [LONG, LONG[:30], u'\U0001F600 non-BMP', 'abc', '', 'a b', 'x,y', 'q\\"q', 'l\\nm', 'p\\\\p', 'd\\$d', u'caf\\u00e9', u'été', 'tab\\there',
               '[not a list]', '{k:v}', '<<g>>', 'N', 'ver:\\"2.0\\"', u'中', '2020-01-01']
 URI_BODIES = ['http://example.org/a/rather/long/path/to/a/resource?with=query', 'http://x/', 'a\\`b', 'p?q=1&r=2', 'h\\:p', u'u\\u00e9', '']
 NAMES = ['a', 'b', 'c', 'dis', 'siteRef', 'n_1', 'curVal', 'x9']
